@@ -21,10 +21,11 @@ type HarnessCfg struct {
 	Ticks         int
 	NowMonotone   bool
 	FirstRangeInOrder bool
+	DPOR bool
 }
 
 func defaultHarnessCfg() *HarnessCfg {
-	return &HarnessCfg{Preempt: -1, MapOrderFork: true, NowMonotone: true}
+	return &HarnessCfg{Preempt: -1, MapOrderFork: true, NowMonotone: true, DPOR: true}
 }
 
 type intrinsicFn func(s *State, fr *Frame, fn *ssa.Function, args []Value, dest ssa.Value) (Value, bool)
@@ -380,11 +381,20 @@ func (s *State) atomicSync(p Ptr, write bool) {
 	if p.Obj == nil {
 		s.panicNow("atomic operation on nil pointer")
 	}
-	if s.cfg == nil || !s.cfg.Race || s.atomic > 0 {
+	if s.atomic > 0 {
 		return
 	}
 	th := s.cur
 	m := s.atomicMeta(p)
+	if s.cfg == nil || !s.cfg.Race {
+		// happens-before bookkeeping only (needed by the partial-order reduction)
+		th.vc = th.vc.join(m.atomicVC)
+		if write {
+			s.tick(th)
+			m.atomicVC = m.atomicVC.clone().join(th.vc)
+		}
+		return
+	}
 	// mixed plain/atomic access is a race unless ordered
 	if m.wTid >= 0 && m.wTid != th.id && !m.wAtomic && !th.vc.covers(m.wTid, m.wClk) {
 		s.reportRace(fmt.Sprintf("plain write at %s by t%d vs atomic access at %s by t%d", m.wWhere, m.wTid, s.where(), th.id))
